@@ -477,7 +477,11 @@ pub fn run_udp_case(case: &UdpCase, oracles: Oracles) -> CaseResult {
                     .collect();
                 let removed = model.clean(now);
                 if oracles.access_list {
+                    let n = model.torrents.len();
                     model.retain_torrents(|hsh| allowed(&listed, hsh));
+                    if model.torrents.len() < n {
+                        out.label("forbidden-torrent-cleaned");
+                    }
                 }
                 let do_export = *export && oracles.exports;
                 h.maps.clean_and_update_statistics(
@@ -506,6 +510,20 @@ pub fn run_udp_case(case: &UdpCase, oracles: Oracles) -> CaseResult {
                 }
                 if removed.iter().any(|(_, _, e)| e.deadline == now) {
                     out.label("clean-at-deadline");
+                }
+                if removed.iter().any(|(_, _, e)| e.deadline + 1 == now) {
+                    out.label("clean-one-after-deadline");
+                }
+                if model.torrents.values().any(|t| t.values().any(|e| e.deadline == now + 1)) {
+                    out.label("clean-one-before-deadline");
+                }
+                for (tk, _, _) in &removed {
+                    let left = model.size(tk.0, &tk.1);
+                    out.label(if large.get(tk).copied().unwrap_or(false) || left > 4 {
+                        "expired-in-heap-map"
+                    } else {
+                        "expired-in-inline-map"
+                    });
                 }
                 if oracles.stats_totals {
                     let got4 = (
